@@ -513,4 +513,17 @@ def entryStep (s : Nat × Option Nat) : EntryAct → Nat × Option Nat
 
 def entryRun (s : Nat × Option Nat) (l : List EntryAct) : Nat × Option Nat := l.foldl entryStep s
 
+/-! ### which tokens can carry a use limit
+
+A service token has a stored entry whose `NumUses` `UseToken` counts down; a batch token is not stored at all (its
+protobuf form has no use count), so every request presenting it is authorised while it is unexpired. -/
+
+/-- `handleCreateCommon` (after the repair F85): a batch token that would end up with a use limit — from the request's
+`num_uses` or from the role's `token_num_uses` — is refused -/
+def createAccepted (batch : Bool) (numUses : Nat) : Bool := !(batch && numUses != 0)
+
+/-- how many of `k` presented requests a token authorises (`numUses = 0`: unlimited) -/
+def authorisedOf (batch : Bool) (numUses k : Nat) : Nat :=
+  if batch || numUses = 0 then k else min k numUses
+
 end Obao.UseCount
